@@ -379,7 +379,7 @@ def run(pid, tier, seed):
         ctx = {"lp": lp.line(), "colnames": cn, "rownames": rn, "ops": lines[-17:]}
         if tr.crashed and getattr(tr, "returncode", 0) != 3:      # exit 3 = the harness refused an op on an empty slot (a read failed before)
             at = lines[len(tr)] if len(tr) < len(lines) else "?"
-            rep.violation("library crashed during write/read round trip at %r: %s" % (at[:60], tr.crashed[-400:]), dict(ctx, stderr=tr.stderr[-2000:]),
+            rep.violation("library crashed during write/read round trip at %r: %s" % (at[:60], tr.crashed[-400:]), dict(ctx, stderr=tr.stderr[-2000:], stderr_head=tr.stderr[max(0, tr.stderr.find("ERROR: AddressSanitizer")):][:2500], lines=lines),
                           signature={"symptom": "crash", "at": at.split(" ")[0] + " " + (at.split(" ")[2] if len(at.split(" ")) > 2 else "")})
             continue
         d = [blk for op, blk in tr if op.startswith("dumpapi")]
